@@ -1,6 +1,73 @@
-(* placeholder until Proofs/FollowP.v lands: pins the model the schedules are generated from *)
-From XS Require Import Model.Conc Proofs.ConcP.
-Theorem C03_channel_increasing : forall s i j f g, reach s ->
-  nth_error (g_chan s) i = Some f -> nth_error (g_chan s) j = Some g -> (i < j)%nat -> c_id f < c_id g.
-Proof. exact chan_nth_increasing. Qed.
-Print Assumptions C03_channel_increasing.
+(* C03 — follow delivers every frame exactly once, in order, across history -> live.
+   Over the transition system of Model/Conc.v (locked appends; labels = code between two
+   sync points), any number of writers and followers, ANY schedule, any pre-existing history.
+   [seen fl] = the real frames delivered so far (consumed or queued), in delivery order. *)
+From XS Require Import Model.Conc Proofs.ConcP Proofs.FollowP.
+
+(* exactly once, in increasing id order, across the hand-off *)
+Theorem C03_in_order_once : forall s k fl, reach s -> nth_error (g_fs s) k = Some fl ->
+  inc (seen fl) /\ NoDup (seen fl).
+Proof. intros s k fl R E. split; [exact (seen_increasing s k fl R E)|exact (seen_nodup s k fl R E)]. Qed.
+Print Assumptions C03_in_order_once.
+
+(* only frames of its scope, after its start position *)
+Theorem C03_in_scope : forall s k fl, reach s -> nth_error (g_fs s) k = Some fl ->
+  Forall (fun f => in_scope_c (o_ctx (fo fl)) f = true) (seen fl).
+Proof. exact seen_in_scope. Qed.
+Theorem C03_after_start : forall s k fl, reach s -> nth_error (g_fs s) k = Some fl ->
+  o_tail (fo fl) = false -> f_last fl <> None ->
+  Forall (fun f => after_c (o_last (fo fl)) f = true) (seen fl).
+Proof. exact seen_after_last. Qed.
+Print Assumptions C03_in_scope.
+Print Assumptions C03_after_start.
+
+(* NO GAP: every stored in-scope frame after the start position whose id is at most that of
+   some delivered frame has itself been delivered - at every reachable state, however
+   appends interleave with subscribe / scan / hand-off / live receive *)
+Theorem C03_no_gap : forall s k fl, reach s -> nth_error (g_fs s) k = Some fl ->
+  o_tail (fo fl) = false ->
+  forall g h, In g (g_stream s) -> scope_ok (fo fl) g = true ->
+              In h (seen fl) -> c_id g <= c_id h -> In g (seen fl).
+Proof. exact no_gap. Qed.
+Print Assumptions C03_no_gap.
+
+(* everything broadcast after the subscription point (ephemeral frames included) that the live
+   task has processed, in scope and above the hand-off id, has been delivered *)
+Theorem C03_live_complete : forall s k s1 sched s2 fl2,
+  reach s -> cstep s (LSubscribe k) = Some s1 -> crun s1 sched = Some s2 ->
+  nth_error (g_fs s2) k = Some fl2 ->
+  forall i x, (length (g_chan s) <= i < qp (f_l fl2) (f_pos fl2))%nat ->
+    nth_error (g_chan s2) i = Some x -> in_scope_c (o_ctx (fo fl2)) x = true ->
+    leL (f_last fl2) x = false -> In x (seen fl2).
+Proof. exact live_complete. Qed.
+Print Assumptions C03_live_complete.
+
+(* exactly one threshold marker, after everything replayed from history and before anything live *)
+Theorem C03_threshold_once : forall s k fl pre post, reach s -> nth_error (g_fs s) k = Some fl ->
+  f_got fl ++ f_out fl = pre ++ IThreshold :: post -> ~ In IThreshold pre /\ ~ In IThreshold post.
+Proof. exact threshold_once. Qed.
+Theorem C03_threshold_present : forall s k fl, reach s -> nth_error (g_fs s) k = Some fl ->
+  f_h fl = HAtDone \/ f_h fl = HFinished true -> wants_threshold (fo fl) = true ->
+  In IThreshold (f_got fl ++ f_out fl).
+Proof. exact threshold_present. Qed.
+Theorem C03_threshold_position : forall s k fl pre post, reach s -> nth_error (g_fs s) k = Some fl ->
+  f_got fl ++ f_out fl = pre ++ IThreshold :: post ->
+  (forall a b, In a (reals pre) -> In b (reals post) -> c_id a < c_id b) /\
+  (forall a, In a (reals pre) -> match f_last fl with Some l => c_id a <= l | None => False end) /\
+  (forall b, In b (reals post) -> match f_last fl with Some l => l < c_id b | None => True end).
+Proof. exact threshold_position. Qed.
+Print Assumptions C03_threshold_once.
+Print Assumptions C03_threshold_present.
+Print Assumptions C03_threshold_position.
+
+(* KNOWN FINDING (C03-ephemeral-dropped-in-replay-window): the full statement "plus every frame
+   (ephemeral ones included) appended after it subscribed" is FALSE for an ephemeral frame that
+   is broadcast inside the replay window when the scan later yields a larger stored id: it is
+   below the hand-off id and is skipped by the live task.  Computed witness, replayed on the
+   implementation on every run (corpus/C03/ephemeral_dropped.json): *)
+Check ephemeral_dropped_witness.
+Check ephemeral_never_delivered.
+(* a second corner the proof exposed: a last-id above every stored id is not applied to live frames *)
+Check future_last_id_not_filtered_live.
+(* non-vacuity *)
+Check history_then_live_reachable.
